@@ -45,6 +45,18 @@ func identEndPositions(text string) []Pos {
 	return out
 }
 
+// callArgPositions returns the position just after the opening parenthesis of the first calls in
+// the text (where signature help is asked for), at most three.
+func callArgPositions(text string) []Pos {
+	var out []Pos
+	for ln, line := range strings.Split(text, "\n") {
+		if i := strings.Index(line, "("); i > 0 && len(out) < 3 {
+			out = append(out, Pos{ln, i + 1})
+		}
+	}
+	return out
+}
+
 func genC09(seed int64, tier string) *Scenario {
 	r := rand.New(rand.NewSource(seed))
 	sc := &Scenario{Prop: "C09", Seed: seed, Knobs: map[string]interface{}{}}
@@ -167,7 +179,25 @@ func genC09(seed int64, tier string) *Scenario {
 				sc.Ops = append(sc.Ops, Op{Kind: "req", Method: m, Path: "use.lua", Pos: &p})
 			}
 		}
+		// the other position-based features share the reference pool (rename, highlight) or the
+		// global tables (signature help)
+		for _, m := range []string{"rename", "highlight", "signatureHelp"} {
+			if r.Intn(4) == 0 {
+				sc.Ops = append(sc.Ops, Op{Kind: "req", Method: m, Path: "use.lua", Pos: &p})
+			}
+		}
 	}
+	for _, p := range callArgPositions(useText) {
+		p := p
+		sc.Ops = append(sc.Ops, Op{Kind: "req", Method: "signatureHelp", Path: "use.lua", Pos: &p})
+	}
+	ends := identEndPositions(useText)
+	r.Shuffle(len(ends), func(i, j int) { ends[i], ends[j] = ends[j], ends[i] })
+	for i := 0; i < 3 && i < len(ends); i++ {
+		p := ends[i]
+		sc.Ops = append(sc.Ops, Op{Kind: "req", Method: "completion", Path: "use.lua", Pos: &p})
+	}
+	sc.Ops = append(sc.Ops, Op{Kind: "req", Method: "codeLens", Path: "use.lua"}, Op{Kind: "req", Method: "documentLink", Path: "use.lua"})
 	for _, p := range requirers {
 		sc.Ops = append(sc.Ops, Op{Kind: "open", Path: p},
 			Op{Kind: "req", Method: "definition", Path: p, Pos: &Pos{0, 22}},
